@@ -22,13 +22,13 @@ def run(ctx, R):
     R.explanation = 'Structure of the aggregation folds in streamz/dataframe: derivation of state, naming conventions, plumbing.'
     R.not_decided = ['numeric equality with pandas (dtype, NaN, empty-frame conventions)', 'map_partitions per-batch semantics']
     declare(R, folds.RULES, RULES, FLOORS)
-    folds.check_fold_derive(ctx, R, steps=('on_new',))
-    folds.check_agg_table(ctx, R)
-    folds.check_reducer_name(ctx, R)
-    folds.check_state_plumb(ctx, R)
-    folds.check_fold_pure(ctx, R)
-    folds.check_batch_pure(ctx, R)
-    folds.check_initial_neutral(ctx, R)
+    R.run(folds.check_fold_derive, ctx, R, steps=('on_new',))
+    R.run(folds.check_agg_table, ctx, R)
+    R.run(folds.check_reducer_name, ctx, R)
+    R.run(folds.check_state_plumb, ctx, R)
+    R.run(folds.check_fold_pure, ctx, R)
+    R.run(folds.check_batch_pure, ctx, R)
+    R.run(folds.check_initial_neutral, ctx, R)
 
 
 META['level'] += " Also: per-batch functions do not mutate the batch they are given (BATCH-PURE) and initial() performs no arithmetic on the first batch's values (INITIAL-NEUTRAL)."
